@@ -321,16 +321,27 @@ def reproduce(sc, init, history, op, signature, times=3):
     """Determinism gate: re-execute from fresh objects."""
     hits = 0
     for _ in range(times):
+        # (the same error classes as _expand, so that a crash of an oracle
+        # on an inconsistent implementation state reproduces as what it was)
+        v = []
         try:
             w = sc.materialise(init, history)
-            v = []
             if op is not None:
                 v = list(sc.apply(w, op))
-            v += sc.check(w)
-            if op is None:
-                v += sc.check_state(w)
         except Exception as e:  # noqa
             v = [("harness-error:" + type(e).__name__, "")]
+            w = None
+        if w is not None:
+            try:
+                v += sc.check(w)
+            except Exception as e:  # noqa
+                v.append(("check-error:" + type(e).__name__, ""))
+            if op is None:
+                try:
+                    v += sc.check_state(w)
+                except Exception as e:  # noqa
+                    v.append(("harness-error:check_state:"
+                              + type(e).__name__, ""))
         v = _cap(v, 1000)
         if any(s == signature for s, _ in v):
             hits += 1
